@@ -25,7 +25,7 @@ THEOREMS = [
 ]
 ASSUMPTIONS = [
     "proved: every type system the model's descriptor reader builds is one tree with consistent feature bookkeeping (it only uses create_type/create_feature on the built-in table), types are created supertypes first for every order of declaration, the writer emits the user types sorted by name with every declared field, a built-in redeclared with a different supertype is rejected",
-    "NOT proved: the end-to-end statement load(to_xml ts) = ts; it is checked per run on the implementation and against the model, over all/many permutations of the declarations (partial)",
+    "proved end to end (tsxml_roundtrip*): every permutation of the emitted descriptor (optionally with identically redeclared built-ins / DocumentAnnotation) loads to the same declarations and re-emits the trimmed descriptor, for API-built type systems without shadowed features (finding X12); checked per run on the implementation and against the model as well",
     "XML text layer (namespaces, escaping, byte-for-byte re-emission) is lxml's business; byte identity of re-emission is observed on the implementation",
     "features added to DocumentAnnotation through the API (finding D1) are outside the generators",
 ]
